@@ -23,6 +23,16 @@ type c14Pred struct {
 	// hour/minute provenance: variables defined as strconv.Atoi(matches[k])
 	groups  map[types.Object]int
 	hmNotes []string
+	st      *kit.Std // the flow being run (helpers of the schedule are evaluated inline)
+}
+
+// res maps a parameter (or the receiver) of a helper that is evaluated inline
+// to the argument it is bound to.
+func (p *c14Pred) res(e ast.Expr) ast.Expr {
+	if p.st != nil {
+		return ast.Unparen(p.st.Resolve(ast.Unparen(e)))
+	}
+	return ast.Unparen(e)
 }
 
 func c14Union(a, b string) string {
@@ -47,7 +57,7 @@ func (p *c14Pred) taintOf(e ast.Node, s kit.S) string {
 		case *ast.FuncLit:
 			return false
 		case *ast.SelectorExpr:
-			if base, fv, ok := kit.FieldSel(p.info, x); ok && kit.ObjOf(p.info, base) == types.Object(p.recv) {
+			if base, fv, ok := kit.FieldSel(p.info, x); ok && kit.ObjOf(p.info, p.res(base)) == types.Object(p.recv) {
 				switch fv {
 				case p.cm.ch.startF:
 					out = c14Union(out, "S")
@@ -85,8 +95,11 @@ func (p *c14Pred) isUTCOfT(e ast.Expr, s kit.S) bool {
 		}
 		return false
 	}
-	if o := kit.ObjOf(p.info, e); o != nil {
-		if _, isId := e.(*ast.Ident); isId {
+	if id, isId := e.(*ast.Ident); isId {
+		if r := p.res(id); r != ast.Expr(id) {
+			return p.isUTCOfT(r, s)
+		}
+		if o := kit.ObjOf(p.info, id); o != nil {
 			return s.Get("ex:"+kit.VarID(o)) == "utc"
 		}
 	}
@@ -96,8 +109,13 @@ func (p *c14Pred) isUTCOfT(e ast.Expr, s kit.S) bool {
 // isT: e denotes the instant t (the parameter, or its UTC copy).
 func (p *c14Pred) isT(e ast.Expr, s kit.S) bool {
 	e = ast.Unparen(e)
-	if id, ok := e.(*ast.Ident); ok && kit.ObjOf(p.info, id) == types.Object(p.tpar) && !s.Has("tmod") {
-		return true
+	if id, ok := e.(*ast.Ident); ok {
+		if r := p.res(id); r != ast.Expr(id) {
+			return p.isT(r, s)
+		}
+		if kit.ObjOf(p.info, id) == types.Object(p.tpar) && !s.Has("tmod") {
+			return true
+		}
 	}
 	return p.isUTCOfT(e, s)
 }
@@ -217,10 +235,20 @@ func (p *c14Pred) instant(e ast.Expr, s kit.S) string {
 			}
 		}
 	case *ast.SelectorExpr:
-		// L[i].f
+		// w.f of a local window, or L[i].f
 		base, fv, ok := kit.FieldSel(p.info, x)
 		if !ok {
 			return "?"
+		}
+		if w, isW := p.windowOf(base, s); isW {
+			if _, isLit := p.isWindowLit(base); !isLit {
+				switch fv {
+				case p.cm.trF[0]:
+					return w[0]
+				case p.cm.trF[1]:
+					return w[1]
+				}
+			}
 		}
 		ix, ok := ast.Unparen(base).(*ast.IndexExpr)
 		if !ok {
@@ -308,6 +336,24 @@ func (p *c14Pred) isListType(t types.Type) bool {
 	return el != nil && !isPtr && types.Identical(el, p.cm.tr)
 }
 
+// windowOf evaluates an expression of window type: a literal, or a local
+// holding a window ("tw:<id>" = "start|end").
+func (p *c14Pred) windowOf(e ast.Expr, s kit.S) ([2]string, bool) {
+	if cl, ok := p.isWindowLit(e); ok {
+		return p.pairOf(cl, s), true
+	}
+	if id, ok := ast.Unparen(e).(*ast.Ident); ok {
+		if o := kit.ObjOf(p.info, id); o != nil {
+			if v := s.Get("tw:" + kit.VarID(o)); v != "" {
+				if ab := strings.Split(v, "|"); len(ab) == 2 {
+					return [2]string{ab[0], ab[1]}, true
+				}
+			}
+		}
+	}
+	return [2]string{}, false
+}
+
 // listExpr evaluates an expression of window-list type symbolically.
 func (p *c14Pred) listExpr(e ast.Expr, s kit.S) string {
 	e = ast.Unparen(e)
@@ -315,11 +361,11 @@ func (p *c14Pred) listExpr(e ast.Expr, s kit.S) string {
 	case *ast.CompositeLit:
 		var ps [][2]string
 		for _, el := range x.Elts {
-			cl, ok := p.isWindowLit(el)
+			w, ok := p.windowOf(el, s)
 			if !ok {
 				return "?"
 			}
-			ps = append(ps, p.pairOf(cl, s))
+			ps = append(ps, w)
 		}
 		return c14FormatList(ps)
 	case *ast.Ident:
@@ -338,11 +384,11 @@ func (p *c14Pred) listExpr(e ast.Expr, s kit.S) string {
 				return "?"
 			}
 			for _, a := range x.Args[1:] {
-				cl, ok := p.isWindowLit(a)
+				w, ok := p.windowOf(a, s)
 				if !ok {
 					return "?"
 				}
-				ps = append(ps, p.pairOf(cl, s))
+				ps = append(ps, w)
 			}
 			return c14FormatList(ps)
 		}
@@ -384,6 +430,11 @@ func (p *c14Pred) run() *c14PredResult {
 	for _, se := range []string{"lt", "eq", "gt"} {
 		for _, anyV := range []string{"T", "F"} {
 			st := &kit.Std{F: f}
+			p.st = st
+			st.ShouldInline = func(cf *kit.Func, call *ast.CallExpr) bool {
+				// the schedule's own methods (window construction split off the predicate)
+				return cf != f && c14RecvNamed(cf) == cm.ch.sched
+			}
 			bf := &kit.BoolFlow{Std: st}
 			bf.Atom = func(e ast.Expr) (string, bool, bool) {
 				if call, ok := ast.Unparen(e).(*ast.CallExpr); ok && f.CalleeFunc(call) == cm.any {
@@ -436,7 +487,7 @@ func (p *c14Pred) run() *c14PredResult {
 						return s
 					}
 					key := kit.VarID(o)
-					ex, wl := "", ""
+					ex, wl, tw := "", "", ""
 					tn := p.taintOf(r, s)
 					switch {
 					case c14IsTime(o.Type()):
@@ -447,6 +498,10 @@ func (p *c14Pred) run() *c14PredResult {
 						}
 					case p.isListType(o.Type()):
 						wl = p.listExpr(r, s)
+					case types.Identical(types.Unalias(o.Type()), cm.tr):
+						if w, ok := p.windowOf(r, s); ok {
+							tw = w[0] + "|" + w[1]
+						}
 					default:
 						if v := p.intSym(r, s); v != "?" {
 							ex = v
@@ -455,7 +510,10 @@ func (p *c14Pred) run() *c14PredResult {
 					if o == types.Object(p.tpar) {
 						s = s.Set("tmod", "T")
 					}
-					s = s.Del("ex:" + key).Del("tn:" + key).Del("wl:" + key)
+					s = s.Del("ex:" + key).Del("tn:" + key).Del("wl:" + key).Del("tw:" + key)
+					if tw != "" {
+						s = s.Set("tw:"+key, tw)
+					}
 					if ex != "" {
 						s = s.Set("ex:"+key, ex)
 					}
@@ -466,6 +524,22 @@ func (p *c14Pred) run() *c14PredResult {
 						s = s.Set("wl:"+key, wl)
 					}
 					return s
+				}
+				// w.f = r on a local window
+				if base, fv, ok := kit.FieldSel(info, l); ok && (fv == cm.trF[0] || fv == cm.trF[1]) {
+					if bid, isId := ast.Unparen(base).(*ast.Ident); isId {
+						if bo := kit.ObjOf(info, bid); bo != nil && s.Has("tw:"+kit.VarID(bo)) {
+							ab := strings.Split(s.Get("tw:"+kit.VarID(bo)), "|")
+							if len(ab) == 2 {
+								if fv == cm.trF[0] {
+									ab[0] = p.instant(r, s)
+								} else {
+									ab[1] = p.instant(r, s)
+								}
+								return s.Set("tw:"+kit.VarID(bo), ab[0]+"|"+ab[1])
+							}
+						}
+					}
 				}
 				// L[i].f = r   /   L[i] = window literal
 				if base, fv, ok := kit.FieldSel(info, l); ok && (fv == cm.trF[0] || fv == cm.trF[1]) {
@@ -503,6 +577,11 @@ func (p *c14Pred) run() *c14PredResult {
 			}
 			st.OnNode = func(n ast.Node, s kit.S) []kit.S {
 				switch x := n.(type) {
+				case *ast.ReturnStmt:
+					// a helper hands back the window list it built
+					if cur := st.Cur(); cur != f && len(x.Results) > 0 && p.isListType(info.TypeOf(x.Results[0])) {
+						s = s.Set(fmt.Sprintf("rl:%d", cur.Pos()), p.listExpr(x.Results[0], s))
+					}
 				case *ast.AssignStmt:
 					if x.Tok != token.ASSIGN && x.Tok != token.DEFINE {
 						for _, l := range x.Lhs {
@@ -528,6 +607,15 @@ func (p *c14Pred) run() *c14PredResult {
 								comps = []string{"Y", "M", "D+0"}
 							}
 						}
+						// the list returned by a helper evaluated inline
+						retList := ""
+						if call, ok := ast.Unparen(x.Rhs[0]).(*ast.CallExpr); ok {
+							if cf := st.Cur().CalleeFunc(call); cf != nil {
+								k := fmt.Sprintf("rl:%d", cf.Pos())
+								retList = s.Get(k)
+								s = s.Del(k)
+							}
+						}
 						for i, l := range x.Lhs {
 							o := kit.ObjOf(info, l)
 							if o == nil {
@@ -543,6 +631,9 @@ func (p *c14Pred) run() *c14PredResult {
 							}
 							if comps != nil && i < len(comps) {
 								s = s.Set("ex:"+key, comps[i])
+							}
+							if i == 0 && retList != "" && p.isListType(o.Type()) {
+								s = s.Set("wl:"+key, retList)
 							}
 						}
 					}
